@@ -100,6 +100,39 @@ def cancelled_run(rng, cancel_at, n_spas):
         return w.run(main())
 
 
+def repeated_runs(rng, n_runs):
+    """several discovery runs back to back on ONE task manager (the manager's pump does exactly this), within one
+    tidy period: after each of them nothing it started is alive"""
+    from geckolib.async_locator import GeckoAsyncLocator
+    from geckolib.async_tasks import AsyncTasks
+    resp = [Responder("s0", b"SPA00:01:02:03:04:05", "one", ("10.0.1.1", 10022), lambda n: [0.02])]
+    net = Network(resp, latency=0.0)
+    out = []
+    with World(net, rank=rng.choice(["stable", "reverse", "perm"]), rng=rng.random()) as w:
+        loop = w.loop
+
+        async def handler(event, **kwargs):
+            pass
+
+        async def main():
+            tm = AsyncTasks()
+            await tm.__aenter__()
+            try:
+                for k in range(n_runs):
+                    before = set(loop.tasks)
+                    loc = GeckoAsyncLocator(tm, handler, spa_identifier="SPA00:01:02:03:04:05")
+                    await loc.discover()
+                    await asyncio.sleep(0)
+                    await asyncio.sleep(0)
+                    alive = [x.get_name() for x in loop.tasks if x not in before and not x.done() and x is not asyncio.current_task()]
+                    out.append({"kind": "repeated", "run": k + 1, "alive": alive, "closed": all(tr.closed for tr in loop.transports),
+                                "listed": len(loc.spas or [])})
+            finally:
+                await tm.__aexit__(None)
+        w.run(main())
+    return out
+
+
 def stray_witness(stray, stray_at, reply_at):
     """LocatorQueue.tla on the real GeckoAsyncLocator: one spa answers every broadcast after `reply_at`; a single
     datagram that is not a hello reaches the locator's endpoint at `stray_at`.  -> what the run listed and when it
@@ -146,7 +179,11 @@ def scenario(rng, spec):
     by_ident = {r.ident: r for r in resp}
     flt = spec["filter"]
     kw = {}
-    if flt == "addr":
+    if flt == "addr" and spec.get("bcast_addr"):
+        # an address filter that is not the answering spa's own address: the subnet's directed broadcast address
+        # (every spa answers from its OWN address, which is what its descriptor carries)
+        kw["spa_address"] = "10.0.1.255"
+    elif flt == "addr":
         kw["spa_address"] = resp[0].addr[0]
     elif flt == "none" and spec.get("empty_addr"):
         kw["spa_address"] = ""            # the "no address configured" value of a configuration entry: same as none
@@ -292,6 +329,11 @@ def run(ctx):
         if cr["alive"] or not cr["closed"] or cr["listed_after"] or cr["events_after"]:
             ctx.violation({"clause": "helper-tasks-alive" if cr["alive"] else "endpoint-open" if not cr["closed"] else "listed-after-the-run-ended",
                            "run": "cancelled"}, cr)
+    for rr in repeated_runs(rng, 4):
+        ev.cov.setdefault("repeated_runs", []).append(rr)
+        if rr["alive"] or not rr["closed"] or rr["listed"] != 1:
+            ctx.violation({"clause": "helper-tasks-alive" if rr["alive"] else "endpoint-open" if not rr["closed"] else "not-listed",
+                           "run": "repeated"}, rr)
     logs = []
     n_sc = 120 if ctx.quick else 3000
     tokens = ["s1", "s2", "s3", "s4", "s5", "s6"]
@@ -302,6 +344,7 @@ def run(ctx):
         if flt == "addr" and not k:
             flt = "none"
         logs.append(scenario(rng, {"responders": responders, "filter": flt, "empty_addr": i % 3 == 0, "empty_ident": i % 3 == 1,
+                                   "bcast_addr": i % 4 == 1,
                                    "hd": rng.choice([0, 0, 0, 0.15, 0.35]),
                                    "rank": rng.choice(["stable", "reverse", "perm", "seeded"])}))
     # boundary grid: a reply consumed just before discover() decides to finish, with a client
